@@ -10,6 +10,8 @@
 // distinct from the invocation pointer)
 #include "backends.hpp"
 #include "vcommon.hpp"
+#include <csetjmp>
+#include <csignal>
 #include <deque>
 #include <unordered_set>
 #ifdef BK_DYLIB
@@ -48,7 +50,7 @@ static long calls_of(sbx_t& sb, int, int which)
 
 struct Op
 {
-  char k; // i invoke lib_id, g invoke add3, a take address of inc1, p pass that address back through the sandbox, d destroy, 1/2 create with library 1/2
+  char k; // c/m nested call chain through callbacks into instance (i+1)%3 (m: callback handle obtained by move assignment), i invoke lib_id, g invoke add3, a take address of inc1, p pass that address back through the sandbox, d destroy, 1/2 create with library 1/2
   int i;
 };
 static std::string ops(const Op& o) { return std::string(1, o.k) + std::to_string(o.i); }
@@ -68,6 +70,16 @@ struct World
   std::string hist;
 };
 static long long n_states = 0, n_trans = 0, n_eval = 0, n_nontriv = 0;
+// --- nested call chains (ops 'c' and 'm'): an invocation on instance i whose callback, while it runs, invokes on instance j=(i+1)%3
+// a function that calls back into the application again; afterwards the outer guest function calls the outer callback once more.
+struct World;
+static World* g_w = nullptr;
+static int g_outer = -1;
+static std::string g_cberr;
+static std::vector<std::string> g_cbtrace;
+static tn<int> cb_inner(sbx_t& s, tn<int> v);
+static tn<int> cb_outer(sbx_t& s, tn<int> v);
+static void nested_op(World& w, int i, bool moved, const std::string& kase);
 static std::string sg(const char* op, const char* kind) { return std::string("C11 part=history backend=") + bk_name + " op=" + op + " kind=" + kind; }
 
 static bool apply(World& w, const Op& op)
@@ -166,6 +178,11 @@ static bool apply(World& w, const Op& op)
       w.addr[i] = a;
       break;
     }
+    case 'c':
+    case 'm':
+      if (!w.live[i]) return true;
+      nested_op(w, i, op.k == 'm', kase);
+      break;
     case 'p': {
       if (!w.live[i]) return true;
       int r = -1;
@@ -179,15 +196,106 @@ static bool apply(World& w, const Op& op)
       break;
     }
   }
-  if (w.live[i] && strchr("ijgnap", op.k)) {
+  if (w.live[i] && strchr("ijgnapcm", op.k)) {
     w.last[i] = op.k;
     w.cur[i] = true;
   }
   w.hist += (w.hist.empty() ? "" : " ") + ops(op);
   return g_nviol == before;
 }
+static tn<int> cb_inner(sbx_t& s, tn<int> v)
+{
+  int j = (g_outer + 1) % 3;
+  int x = v.UNSAFE_unverified();
+  g_cbtrace.push_back("inner" + std::to_string(x));
+  if (&s != &g_w->s[j]) g_cberr += "inner callback of instance " + std::to_string(j) + " received another sandbox object; ";
+  return x + 1000 * (j + 1);
+}
+static tn<int> cb_outer(sbx_t& s, tn<int> v)
+{
+  int i = g_outer, j = (i + 1) % 3;
+  int x = v.UNSAFE_unverified();
+  g_cbtrace.push_back("outer" + std::to_string(x));
+  if (&s != &g_w->s[i]) g_cberr += "outer callback of instance " + std::to_string(i) + " received another sandbox object; ";
+  if (g_w->live[j]) {
+    auto& sj = g_w->s[j];
+    // nested: a function of instance j that calls back into the application, then a plain function of j, then one of i itself
+    auto cbj = sj.register_callback(cb_inner);
+    int r = sj.invoke_sandbox_function(call_cb_n, cbj, x + 1, 1).UNSAFE_unverified();
+    if (r != x + 1 + 1000 * (j + 1)) g_cberr += "nested call_cb_n on instance " + std::to_string(j) + " returned " + std::to_string(r) + "; ";
+    int r2 = sj.invoke_sandbox_function(inc1, x).UNSAFE_unverified();
+    if (r2 != x + g_w->lib[j]) g_cberr += "nested inc1 on instance " + std::to_string(j) + " (library " + std::to_string(g_w->lib[j]) + ") returned " + std::to_string(r2) + "; ";
+    cbj.unregister();
+  }
+  int r3 = g_w->s[i].invoke_sandbox_function(inc1, x).UNSAFE_unverified();
+  if (r3 != x + g_w->lib[i]) g_cberr += "re-entrant inc1 on instance " + std::to_string(i) + " (library " + std::to_string(g_w->lib[i]) + ") returned " + std::to_string(r3) + "; ";
+  return x + 100 * (i + 1);
+}
+// a jump through an empty or foreign entry point ends in SIGSEGV: reported as a violation of this history, which ends there
+static sigjmp_buf g_jb;
+static volatile sig_atomic_t g_armed = 0;
+static bool g_crashed = false;
+static void on_segv(int)
+{
+  if (g_armed) siglongjmp(g_jb, 1);
+  _exit(139);
+}
+static void nested_op(World& w, int i, bool moved, const std::string& kase)
+{
+  auto& sb = w.s[i];
+  int j = (i + 1) % 3;
+  g_w = &w;
+  g_outer = i;
+  g_cberr.clear();
+  g_cbtrace.clear();
+  int r = -1;
+  long ci0 = calls_of(sb, i, 2), cj0 = w.live[j] ? calls_of(w.s[j], j, 2) : 0;
+  if (sigsetjmp(g_jb, 1)) {
+    g_armed = 0;
+    g_crashed = true;
+    std::string tr;
+    for (auto& t : g_cbtrace) tr += t + " ";
+    viol(sg(moved ? "nested-chain-moved-handle" : "nested-chain", "crash"), kase, "the call chain crashed (SIGSEGV / SIGBUS); callbacks that had run: [" + tr + "] " + g_cberr);
+    g_w = nullptr;
+    return;
+  }
+  g_armed = 1;
+  auto o = attempt([&] {
+    auto cb0 = sb.register_callback(cb_outer);
+    if (moved) {
+      // the handle that is passed got its registration by move assignment (twice), the source handles are left empty
+      decltype(cb0) cb1, cb2;
+      cb1 = std::move(cb0);
+      cb2 = std::move(cb1);
+      r = sb.invoke_sandbox_function(call_cb_n, cb2, 10, 2).UNSAFE_unverified();
+    } else {
+      r = sb.invoke_sandbox_function(call_cb_n, cb0, 10, 2).UNSAFE_unverified();
+    }
+  });
+  g_armed = 0;
+  long ci1 = calls_of(sb, i, 2), cj1 = w.live[j] ? calls_of(w.s[j], j, 2) : 0;
+  n_eval++;
+  n_nontriv++;
+  const char* opn = moved ? "nested-chain-moved-handle" : "nested-chain";
+  int want = 10 + 11 + 200 * (i + 1);
+  std::string tr;
+  for (auto& t : g_cbtrace) tr += t + " ";
+  std::string wtr = w.live[j] ? "outer10 inner11 outer11 inner12 " : "outer10 outer11 ";
+  if (o != RET) viol(sg(opn, "abort"), kase, "invocation with a callback that itself invokes on instance " + std::to_string(j) + " aborted; callbacks that ran: " + tr + g_cberr);
+  else if (!g_cberr.empty()) viol(sg(opn, "inner-call-unfaithful"), kase, g_cberr);
+  else if (tr != wtr) viol(sg(opn, "callback-sequence"), kase, "callbacks ran as [" + tr + "] expected [" + wtr + "]");
+  else if (r != want) viol(sg(opn, "result"), kase, "call_cb_n(outer,10,2) on instance " + std::to_string(i) + " returned " + std::to_string(r) + " expected " + std::to_string(want));
+  else if (ci1 - ci0 != 2 || (w.live[j] && cj1 - cj0 != 2)) viol(sg(opn, "call-count"), kase, "inc1 ran " + std::to_string(ci1 - ci0) + " times in instance " + std::to_string(i) + " and " + std::to_string(cj1 - cj0) + " times in instance " + std::to_string(j) + " (expected 2 and 2)");
+  g_w = nullptr;
+}
 static void teardown(World& w)
 {
+  if (g_crashed) {
+    // the objects of a crashed history are abandoned, not destroyed (their state is whatever the crash left)
+    g_crashed = false;
+    for (int i = 0; i < 3; i++) new (&w.s[i]) sbx_t();
+    return;
+  }
   for (int i = 0; i < 3; i++)
     if (w.live[i]) {
       try {
@@ -234,9 +342,17 @@ int main(int argc, char** argv)
 #ifdef BK_MBOX
   mb::g_symtab = symtab;
 #endif
+  {
+    struct sigaction sa;
+    memset(&sa, 0, sizeof sa);
+    sa.sa_handler = on_segv;
+    sa.sa_flags = SA_NODEFER;
+    sigaction(SIGSEGV, &sa, nullptr);
+    sigaction(SIGBUS, &sa, nullptr);
+  }
   std::vector<Op> alpha;
   for (int i = 0; i < 3; i++)
-    for (char k : { '1', '2', 'd', 'i', 'j', 'g', 'a', 'p', 'n' }) alpha.push_back({ k, i });
+    for (char k : { '1', '2', 'd', 'i', 'j', 'g', 'a', 'p', 'n', 'c', 'm' }) alpha.push_back({ k, i });
   if (g_args.replay) {
     auto f = split(g_args.replay, '|');
     if (f[0] == bk_name) {
